@@ -415,4 +415,16 @@ theorem raises_without_the_section :
     (subDrop 2 101 (subDrop 1 101 (subTest 2 101 (subTest 1 101 s0)))).err 2 = 2 ∧
     (dbDelKey 2 (dbDelKey 1 (dbScanVal 2 7 (dbScanVal 1 7 ({ db := [(0, 7)] } : LSt))))).err 2 = 1 := by decide
 
+/-- regenerated from the source: no method dereferences the answer of a single-object look-up without testing it for
+None first (the object may have been removed since the existence check - another lock section) -/
+theorem source_optional_lookups_guarded : Generated.LdmShape.optionalDerefs = [] := optional_lookups_guarded
+
+/-- the None test is live: update 2 of object 0 checks existence, a delete (operation 3) removes the object, the
+update's look-up answers None.  Without the test the type comparison raises TypeError (`err` 3: an operation raised
+instead of answering); with it nothing is raised and the update answers 2 (unknown / inconsistent) -/
+theorem raises_without_none_guard :
+    let s := dbGet 2 0 6 (dbRemoveId 3 0 (dbExists 3 0 (dbExists 2 0 ({ db := [(0, 8)] } : LSt))))
+    (updTypeChk false 2 s).err 2 = 3 ∧ (updTypeChk true 2 s).err 2 = 0 ∧
+    updCode (s.reg 2 1) (s.reg 2 6) (s.reg 2 7) = 2 := by decide
+
 end Props.C16
